@@ -62,6 +62,20 @@ def gen_spec(rng, clean=False, max_nodes=5):
             elif not clean:
                 e['image'] = 'nosuchimg'
         libs['effects'].append(e)
+    # effect-internal links: sampler -> surface, texture -> sampler, bump -> sampler; sometimes dangling or
+    # re-pointed at a sid that only ANOTHER effect defines
+    tex_fx = [e for e in libs['effects'] if e['image'] is not None]
+    for e in tex_fx:
+        others = [x['id'] for x in tex_fx if x is not e]
+        if not clean and rng.random() < 0.35:
+            which = rng.choice(['samp_src', 'tex', 'bump_tex'])
+            if which == 'samp_src':
+                e['samp_src'] = rng.choice(['nosuchsurf'] + [x + '-surf' for x in others])
+            elif which == 'tex':
+                e['tex'] = rng.choice(['nosuchsamp'] + [x + '-samp' for x in others])
+            else:
+                e['bump'] = True
+                e['bump_tex'] = rng.choice(['nosuchsamp'] + [x + '-samp' for x in others])
     libs['materials'] = [{'id': i, 'effect': ref('effects')} for i in ids['materials']]
     libs['geometries'] = [{'id': i} for i in ids['geometries']]
     libs['controllers'] = []
@@ -214,6 +228,7 @@ def build(spec):
     root.append(frag('<asset><created>2020-01-01T00:00:00Z</created><modified>2020-01-01T00:00:00Z</modified>'
                      '<up_axis>Y_UP</up_axis></asset>'))
     owner = []          # (spec object, element)
+    nps = []            # (effect spec, its newparam elements)
 
     def add_inst(parent, c):
         if c['t'] == 'inode':
@@ -254,6 +269,18 @@ def build(spec):
                 el = frag(D.image(x['id'], x['id'] + '.png'))
             elif k == 'effects':
                 el = frag(D.effect_textured(x['id'], x['image']) if x['image'] is not None else D.effect_plain(x['id']))
+                if x['image'] is not None:
+                    for np_ in el.iter(q('newparam')):
+                        sm = np_.find(q('sampler2D'))
+                        if sm is not None and x.get('samp_src'):
+                            sm.find(q('source')).text = x['samp_src']
+                    for tx in el.iter(q('texture')):
+                        in_extra = any(tx in list(b) for b in el.iter(q('bump')))
+                        if in_extra and x.get('bump_tex'):
+                            tx.set('texture', x['bump_tex'])
+                        elif not in_extra and x.get('tex'):
+                            tx.set('texture', x['tex'])
+                    nps.append((x, list(el.iter(q('newparam')))))
                 if x['image'] is not None and not x.get('bump'):
                     # (the textured effect of c08docs carries a bump map under <extra>; drop it here)
                     ex = el.find(q('extra'))
@@ -293,6 +320,9 @@ def build(spec):
             owner.append((x, el))
     idx = {id(e): i for i, e in enumerate(root.iter())}
     uids = {id(o): idx[id(e)] for o, e in owner}
+    for x, els_ in nps:
+        for k, e in enumerate(els_):
+            uids[('np', id(x), k)] = idx[id(e)]
     data = ET.tostring(root, encoding='utf-8', xml_declaration=True)
     return data, uids
 
@@ -364,15 +394,21 @@ def c_doc(spec, uids, I):
             items = []
             for x in t['items']:
                 refs = []
+                fx = 'None'
                 if k == 'effects' and x['image'] is not None:
-                    refs.append(c_ref(I, 'LImages', x['image'], 'SText'))
+                    eid = x['id']
+                    ps = ['(PSurface %d%%N %d%%N %d%%N)' % (I(eid + '-surf'), uids[('np', id(x), 0)], I(x['image'])),
+                          '(PSampler %d%%N %d%%N %d%%N)' % (I(eid + '-samp'), uids[('np', id(x), 1)], I(x.get('samp_src') or eid + '-surf')),
+                          '(PValue %d%%N)' % I(eid + '-f')]
+                    bump = '(Some %d%%N)' % I(x.get('bump_tex') or eid + '-samp') if x.get('bump') else 'None'
+                    fx = '(Some (FX %s [%d%%N] %s))' % (c_list(ps), I(x.get('tex') or eid + '-samp'), bump)
                 elif k == 'materials':
                     refs.append(c_ref(I, 'LEffects', x['effect'], 'SUrl'))
                 elif k == 'controllers':
                     refs.append(c_ref(I, 'LGeometry', x['source'], 'SCtrl'))
                     for tg in x.get('targets', []):
                         refs.append(c_ref(I, 'LGeometry', tg, 'SText'))
-                items.append('(Item %d%%N %d%%N %s)' % (uids[id(x)], I(x['id']), c_list(refs)))
+                items.append('(Item %d%%N %d%%N %s %s)' % (uids[id(x)], I(x['id']), c_list(refs), fx))
             out.append('(%s, CItems %s)' % (LIBNAME[k], c_list(items)))
     return c_list(out)
 
